@@ -364,5 +364,13 @@ def r_unscheduled_is_parked(ctx):
     tasks.r_task_oblig(ctx, mode="implies", rule="R-SET-ASSERTIONS", obligations=False)
 
 
+def r_scheduled_is_nonnegative(ctx):
+    """the reporters take `busy interval >= 0` for 'assigned' (R-VIEW-SYMMETRY): that test says what it is meant to say only if a
+    scheduled task never starts before 0 - the obligation `start >= 0` of every task class on every parameter combination
+    (R-TASK-OBLIG, shared with C01).  Without it a scheduled task placed before 0 is reported without its resources."""
+    from rules import tasks
+    tasks.r_task_oblig(ctx)
+
+
 RULES = [r_extract, r_horizon_report, r_calendar, r_view_symmetry, r_marker, r_requirement_interval, r_horizon_bounds_ends,
-         r_unscheduled_is_parked]
+         r_unscheduled_is_parked, r_scheduled_is_nonnegative]
